@@ -98,8 +98,14 @@ def run(repo, rep):
     texts = ['lat2 = atan2(sin u1 cos s + cos u1 sin s cos az, (1-f) sqrt(sin^2 alpha + (...)^2))',
              'lon2 = lon1 + degrees(lambda - (1-C) f sin alpha (sigma + C sin sigma (cos 2sm + C cos sigma (-1 + 2 cos^2 2sm))))',
              'azimuth2to1 = degrees(atan2(sin alpha, -sin u1 sin sigma + cos u1 cos sigma cos az)) + 180']
+    from ..symcheck import strip_turn_folds
     for i in range(3):
-        check_equal(rep, 'R-FORMULA', base + names[i], w, val.items[i], fin.items[i], texts[i])
+        got_i = val.items[i]
+        if i == 1:
+            # the property compares the longitude modulo 360 degrees: a wrap of the result (or of lon1, which enters linearly) into a
+            # principal range changes the representative, not the longitude
+            got_i = strip_turn_folds(got_i)
+        check_equal(rep, 'R-FORMULA', base + names[i], w, got_i, fin.items[i], texts[i] + (' (modulo a full turn)' if i == 1 else ''))
     rep.floor('R-FORMULA', 5, 'iteration, sigma0, three results')
     # provenance
     bad = []
